@@ -60,4 +60,12 @@ PROPS = {
         "monitor 'shape': (n,d) pairs (quick: seeded subset incl. all borders 0,1,2,255; thorough: the full 256x256 grid) and seeds {0,42,u64::MAX,random}: shape, finiteness, purity (two calls bit-identical), init_det == init_with_seed(42), prefix property against a request with 3 more rows, f32 values == f64 values rounded, two init() calls differ, seed matters. monitor 'dist': pooled entries (>= 2e5 per case) of init_with_seed over random seeds and of OS-seeded init: mean, variance, 4th moment, within-row and between-row lag-1 correlations (|z| <= 6.5) and Kolmogorov-Smirnov against N(0,1) (sqrt(n) D <= 2.6). Distinct by (n,d,seed).",
         ["the distributional part has a bounded false-alarm probability (< 1e-5 per run) by construction of the thresholds"],
     ),
+    "C15": P(
+        "monitor 'gaussian2d': Gaussian2D<f32|f64> with random means and SPD covariances (condition number up to 1e4, scale 1e-2..1e2) at points up to several sd away: normalised and unnormalised log-density vs closed form, difference = -ln(2 pi) - 1/2 ln|Sigma|. monitor 'targets': DiffableGaussian2D, Rosenbrock2D (batched and single-point), RosenbrockND (dim 2..32) on {f32,f64} scalars x {NdArray<f32>,NdArray<f64>} backends, batch sizes 1..64: log-density row by row and gradients from unnorm_logp_and_grad and from the HMC-style autodiff call on unnorm_logp_batch vs analytic gradients (analytic gradients themselves guarded by central differences). monitor 'isotropic': IsotropicGaussian<f32|f64>, std 1e-3..1e3, dim 1..32: logp(from,to) vs -sum d^2/2s^2 - d/2 ln(2 pi s^2), symmetry, Target form, integral of exp(logp) by trapezoid quadrature in D=1,2, noise mean/variance/KS, set_seed reproducibility. Tolerance = 50x the largest change of the f64 reference under one-ulp perturbations of all inputs + 256 ulp. Distinct by case and type combination.",
+        ["tensor-based targets are held to f32-level accuracy on every backend (the statement's own accuracy clause)"],
+    ),
+    "C17": P(
+        "monitor 'shapes': every entry point (save_csv, save_csv_tensor, save_arrow, save_parquet, save_parquet_tensor) with element types f32/f64/i32/usize where the signature accepts them; shapes 0..6 x 0..40 x 0..8 (thorough: exhaustive, 2583 shapes x 5 entry points; quick: 500 seeded shapes biased to borders); values: NaN, +-inf, +-0, subnormals, extremes, random, or cells encoding (i,j,k); file read back with csv::Reader / arrow ipc FileReader / ParquetRecordBatchReader of the same crate versions: documented header/schema, one row per cell in documented order, labels = indices (save_parquet_tensor: observation, chain), values bit-exact after widening (CSV: parsed in the written element type). An Err return is counted, not judged. monitor 'faults': unwritable targets (missing directory, path is a directory, path below a regular file, empty path, /dev/full = ENOSPC on every write) with small and 96k-cell arrays: must be Err, never Ok or panic. Distinct by (entry, type, shape, encoding) and (entry, fault).",
+        ["read-only directories are not used as a fault (the checks run as root)"],
+    ),
 }
